@@ -262,6 +262,7 @@ Section LoaderFacts.
   Proof.
     intros tf kw ld H. unfold loader_init in H. simpl in H.
     destruct (kw_batch_size kw =? 0) eqn:E; try discriminate.
+    destruct (match kw_sampling kw with BatchSampler _ => kw_drop_last kw | _ => false end); try discriminate.
     apply Nat.eqb_neq in E. injection H as <-. simpl. repeat split; auto. lia.
   Qed.
 
@@ -274,7 +275,7 @@ Section LoaderFacts.
   Proof.
     intros tf kw Hs Hd Hb. unfold run_loader.
     destruct (loader_init (SrcFrame tf) kw) as [ld|] eqn:E.
-    2:{ unfold Loader.loader_init in E. simpl in E.
+    2:{ unfold Loader.loader_init in E. simpl in E. rewrite Hs in E.
         destruct (kw_batch_size kw =? 0) eqn:E0; try discriminate. apply Nat.eqb_eq in E0. lia. }
     destruct (init_frame _ _ _ E) as [Htf [Hn [Hbs [Hpos [Hdl Hsm]]]]].
     rewrite Hs in Hsm. simpl.
@@ -327,7 +328,7 @@ Section LoaderFacts.
   Proof.
     intros tf kw order Hs Hp Hd Hb. unfold run_loader.
     destruct (loader_init (SrcFrame tf) kw) as [ld|] eqn:E.
-    2:{ unfold Loader.loader_init in E. simpl in E.
+    2:{ unfold Loader.loader_init in E. simpl in E. rewrite Hs in E.
         destruct (kw_batch_size kw =? 0) eqn:E0; try discriminate. apply Nat.eqb_eq in E0. lia. }
     destruct (init_frame _ _ _ E) as [Htf [Hn [Hbs [Hpos [Hdl Hsm]]]]].
     rewrite Hs in Hsm. simpl.
